@@ -82,6 +82,7 @@ type Node struct {
 	Stopped                 bool
 	ApplyPaused             bool // async: the apply thread is not scheduled
 	AppendPaused            bool // async: the append thread is not scheduled
+	ReadyPaused             bool // the application does not call Ready for a while
 
 	shared   bool // referenced by more than one world: copy before writing
 	vsCache  *raft.VerifState
@@ -587,6 +588,9 @@ func (w *World) routeResponses(n *Node, rec *StepRec, resps []*pb.Message) {
 }
 
 func (w *World) doAppend(n *Node, rec *StepRec, upto int) {
+	if len(n.AppendQ) == 0 {
+		return // scripted step of an idle append thread
+	}
 	m := n.AppendQ[0]
 	n.AppendQ = n.AppendQ[1:]
 	rec.Storage = m
@@ -638,7 +642,7 @@ func (w *World) crashRestart(n *Node, rec *StepRec, flags int) {
 	rec.Crashed = true
 	n.Pending, n.Stage = nil, 0
 	n.AppendQ, n.ApplyQ, n.LocalQ, n.SnapObl = nil, nil, nil, nil
-	n.ApplyPaused, n.AppendPaused = false, false
+	n.ApplyPaused, n.AppendPaused, n.ReadyPaused = false, false, false
 	n.Inc++
 	if flags&CrashLoseUnsynced != 0 {
 		n.Disk.SetHardState(cloneHS(n.SyncedHS))
@@ -976,6 +980,8 @@ func (w *World) exec(ev Event, n *Node, rec *StepRec) {
 		if ev.Arg == 1 {
 			w.Budget[BPause]--
 		}
+	case EvPauseReady:
+		n.ReadyPaused = ev.Arg == 1
 	case EvPauseAppend:
 		n.AppendPaused = ev.Arg == 1
 		if ev.Arg == 1 {
@@ -1061,7 +1067,7 @@ func (w *World) own(i int) *Node {
 	}
 	d := n.Disk.VerifClone()
 	nn := &Node{ID: n.ID, Inc: n.Inc, Cfg: n.Cfg, Disk: d, RN: n.RN.VerifClone(d), SyncedHS: n.SyncedHS, App: n.App,
-		Pending: n.Pending, Stage: n.Stage, Stopped: n.Stopped, ApplyPaused: n.ApplyPaused, AppendPaused: n.AppendPaused,
+		Pending: n.Pending, Stage: n.Stage, Stopped: n.Stopped, ApplyPaused: n.ApplyPaused, AppendPaused: n.AppendPaused, ReadyPaused: n.ReadyPaused,
 		AppendQ: append([]*pb.Message(nil), n.AppendQ...), ApplyQ: append([]*pb.Message(nil), n.ApplyQ...),
 		LocalQ: append([]*pb.Message(nil), n.LocalQ...), SnapObl: append([]uint64(nil), n.SnapObl...)}
 	nn.fp = n.fp
